@@ -39,3 +39,52 @@ pub fn attempts(w: &World) -> Vec<Attempt<'_>> {
 	}
 	out
 }
+
+use std::collections::BTreeMap;
+
+/// tx id -> event seq of its NetSend
+pub fn tx_send_seq(w: &World) -> BTreeMap<u64, u64> {
+	let mut m = BTreeMap::new();
+	for e in w.trace.iter() {
+		if let Ev::NetSend { tx, .. } = &e.ev {
+			m.insert(*tx, e.seq);
+		}
+	}
+	m
+}
+
+/// index (into `attempts`) of the attempt that was active for `cert` at event `seq`
+pub fn attempt_at<'a>(atts: &'a [Attempt<'a>], seq: u64, cert: Option<&str>) -> Option<usize> {
+	atts.iter().position(|a| {
+		a.begin.seq <= seq && a.end.map(|e| e.seq >= seq).unwrap_or(true) && cert.map(|c| c == a.cert).unwrap_or(true)
+	})
+}
+
+pub const RECOVERABLE: [&str; 7] = ["badNonce", "connection", "dns", "malformed", "rateLimited", "serverInternal", "tls"];
+
+pub const ACME_TYPES: [&str; 24] = [
+	"accountDoesNotExist",
+	"alreadyRevoked",
+	"badCSR",
+	"badNonce",
+	"badPublicKey",
+	"badRevocationReason",
+	"badSignatureAlgorithm",
+	"caa",
+	"compound",
+	"connection",
+	"dns",
+	"externalAccountRequired",
+	"incorrectResponse",
+	"invalidContact",
+	"malformed",
+	"orderNotReady",
+	"rateLimited",
+	"rejectedIdentifier",
+	"serverInternal",
+	"tls",
+	"unauthorized",
+	"unsupportedContact",
+	"unsupportedIdentifier",
+	"userActionRequired",
+];
